@@ -144,6 +144,22 @@ def run(ctx):
         early = [e for e in fx.effects if e.pos < lp[0] and e.kind == "EMIT" and e.aux == "Pressed"]
         ck.ob("C04-R1", ANM, "nothing-pressed-before-the-press-loop", not early)
     ck.floor("C04-R1", "add_new_mapping-return-paths", n, 6)
+    # ---------------- R2 the press loop: outputs in listed order; each one is pressed there and then, or is found in a
+    # held-key list AT THAT MOMENT (the lists as they are after the releases above, not a copy taken earlier)
+    if press_loop is not None:
+        il = ktloops.index_loop(anm, press_loop)
+        ck.ob("C04-R2", ANM, "outputs-visited-in-listed-order,all-of-them", il.elem[1][2] == "fwd" and il.complete and not il.break_paths)
+        x = il.elem
+        nb = 0
+        for p in il.cont_paths:
+            fx = K._one(anm, p, "x", None)
+            nb += 1
+            pressed = [e for e in fx.effects if e.kind == "EMIT" and e.aux == "Pressed" and mir.strip(e.key) == x]
+            held = any(v is True and isinstance(a, tuple) and a[0] == "in" and mir.strip(a[1]) == x and list_of(a[2]) in HELD for a, v in fx.all_guards())
+            ck.ob("C04-R2", ANM, "each-listed-output-is-pressed-or-is-in-a-held-key-list-at-that-moment", len(pressed) == 1 or held, site=p.events[0].span,
+                  detail=None if (pressed or held) else "an output is skipped on guards %s: none of them is a live membership test on pass_through_keys/mapped_output_keys" %
+                  [(show(a)[:50], v) for a, v in fx.all_guards()][1:4])
+        ck.floor("C04-R2", "press-loop-branches", nb, 5)
     # ---------------- R1 newly_press
     np_ = ctx.body(NP)
     k = T("param", 2, np_.dbg.get(2, ""))
